@@ -599,8 +599,9 @@ def run(rep, tier, seed, replay=None):
             w = int(t[4]) - 209000; n = int(t[7])
             pats = [x[1:].lstrip("0") or "0" for x in t[8:] if x != "|"]
             try:
-                s4 = bufrmsg.parse(bytes.fromhex(h["msg"]))["s4"].hex()
-            except Exception:
+                s4 = bufrmsg.parse(bytes.fromhex(h["msg"]), allow5=True)["s4"].hex()
+            except Exception as e_:
+                violation("the frame of a 2 09 YYY message does not parse (%s)" % e_, line[:200], 1, extra={"column_line": line})
                 continue
             mlines.append("COL %d %s" % (w, " ".join(pats))); mmeta.append(("enc", line, s4, pats, None))
             a = rng.randint(1, n); b_ = rng.randint(a, n)
